@@ -90,6 +90,33 @@ def main():
     if use_model:
         model.flush()
 
+    # 2b. which source was the model last validated against?  Anchored functions that changed since the
+    # committed baseline get a second, independently seeded exploration + correspondence pass (quick tier).
+    import srcmap
+    tie = srcmap.compare(prop)
+    ctx.extra["source_tie"] = tie
+    if tie.get("changed"):
+        print(f"NOTE: {len(tie['changed'])} anchored source unit(s) differ from the validated baseline "
+              f"{str(tie.get('baseline_commit'))[:12]}: {', '.join(tie['changed'][:6])}{' ...' if len(tie['changed']) > 6 else ''}")
+        if args.tier == "quick" and not ctx.violations:
+            sub = Ctx(prop, args.tier, seed + 500)
+            m2 = ModelClient(sub)
+            try:
+                mod.run(sub, m2 if use_model else None)
+            except crlib.StopRun:
+                pass
+            if use_model:
+                m2.flush()
+            ctx.evaluations += sub.evaluations
+            ctx.nontrivial |= sub.nontrivial
+            ctx.violations.extend(sub.violations)
+            ctx.disagreements.extend(sub.disagreements)
+            for kk, vv in sub.corr.items():
+                ctx.corr[kk] = ctx.corr.get(kk, 0) + vv
+            for kk, vv in sub.known.items():
+                ctx.known[kk] = ctx.known.get(kk, 0) + vv
+            ctx.notes.append("changed source: second exploration + correspondence pass with seed+500")
+
     # known-finding witnesses are replayed on every run
     witness_lines = []
     if hasattr(mod, "known_findings"):
